@@ -3,7 +3,8 @@ use crate::events::CircuitBreakerEvent;
 #[cfg(feature = "metrics")]
 use metrics::{counter, gauge, histogram};
 use std::collections::VecDeque;
-use std::sync::atomic::{AtomicU8, Ordering};
+use std::sync::atomic::{AtomicU8, AtomicUsize, Ordering};
+use std::sync::Arc;
 use std::time::{Duration, Instant};
 
 /// Clock behind the breaker's own logic (age of the current state, time-based window,
@@ -90,6 +91,19 @@ pub(crate) struct Circuit {
     // Half-open trial tracking (independent of the window type)
     half_open_successes: usize,
     half_open_completed: usize,
+    trial_calls_in_flight: Arc<AtomicUsize>,
+}
+
+/// Held by a call that was admitted as a half-open trial. Dropping it (on completion,
+/// cancellation or panic of the call) gives the trial slot back.
+pub(crate) struct TrialGuard(Arc<AtomicUsize>);
+
+impl Drop for TrialGuard {
+    fn drop(&mut self) {
+        let _ = self
+            .0
+            .fetch_update(Ordering::AcqRel, Ordering::Acquire, |n| n.checked_sub(1));
+    }
 }
 
 impl Default for Circuit {
@@ -119,6 +133,18 @@ impl Circuit {
             call_records: VecDeque::new(),
             half_open_successes: 0,
             half_open_completed: 0,
+            trial_calls_in_flight: Arc::new(AtomicUsize::new(0)),
+        }
+    }
+
+    /// Marks a call that `try_acquire` just admitted as a half-open trial, if the circuit
+    /// is half-open. Must be called under the same lock as `try_acquire`.
+    pub(crate) fn begin_trial(&mut self) -> Option<TrialGuard> {
+        if self.state == CircuitState::HalfOpen {
+            self.trial_calls_in_flight.fetch_add(1, Ordering::AcqRel);
+            Some(TrialGuard(Arc::clone(&self.trial_calls_in_flight)))
+        } else {
+            None
         }
     }
 
@@ -405,7 +431,10 @@ impl Circuit {
                 }
             }
             CircuitState::HalfOpen => {
-                let permitted = self.half_open_completed < config.permitted_calls_in_half_open;
+                // Trials that are still running count as much as completed ones
+                let permitted = self.half_open_completed
+                    + self.trial_calls_in_flight.load(Ordering::Acquire)
+                    < config.permitted_calls_in_half_open;
                 if permitted {
                     config
                         .event_listeners
